@@ -6,7 +6,7 @@ from pysym.harness import run_cases
 LEVEL = 'exploration'
 DEDUCTIVE = [('contracts.isoops', None)]          # (contract module, case-name filter) run by engine P
 FINISH = dict(rule='deductive: one obligation per path / table key; B: see run.bound entries of checks/b07.py',
-              explanation='P: comparison operators defined from mapping existence for all size pairs; B: mapping multisets against an exhaustive reference enumerator',
+              explanation='F: no memoised value read by this property\'s observables survives an edit it depends on (one obligation per covered mutator x cached key); P: comparison operators defined from mapping existence for all size pairs; B: mapping multisets against an exhaustive reference enumerator',
               trusted_base=['CPython', 'z3', 'pysym', 'oracles/o07_ref.py'])
 replay = make_replay('C07')
 
